@@ -33,7 +33,7 @@ REQUIRED_COUNTERS = (
     ["families", "values.accepted", "values.rejected", "child_vs_flat.compared", "json.compared",
      "isinstance.checked", "parent.snapshots", "childop.define", "childop.validate", "childop.prop_add",
      "childop.prop_del", "childop.prop_flip_required", "childop.class_kw", "prop.added", "prop.overridden",
-     "falsy_override", "depth.3plus"]
+     "falsy_override", "depth.3plus", "parent_reconfigured_before_subclassing"]
     + [f"inherit.{k}" for k in CLASS_KWS] + [f"override.{k}" for k in CLASS_KWS]
 )
 FALSY = {
@@ -71,7 +71,8 @@ def class_kw_value(rng, gen, key):
     if key == "patternProperties":
         return {rng.choice(sorted(gv.PATTERNS)): gen.spec(1)}
     if key == "additionalProperties":
-        return rng.choice([False, gen.spec(1)])
+        # (True is a real override too: a child may re-open a parent that closed its additional properties)
+        return rng.choice([False, gen.spec(1), True, True])
     if key == "propertyNames":
         inner = {}
         gen.string(inner)
@@ -165,6 +166,44 @@ def run_family(ctx, sut, monitors, fpm, rng, chain):
         memo = {"__index__": index}
         parent_obs = []
         for level, node in enumerate(chain):
+            if level and rng.random() < 0.35:
+                # define parent -> reconfigure parent -> define child: the child inherits the parent's
+                # CURRENT properties (mirrored in the parent's spec, so the flat class expects them too)
+                parent_cls, parent_node = classes[level - 1], chain[level - 1]
+                gen0 = gen_dsl.Gen(rng, max_depth=0, classes=False, share=0.0)
+                op = rng.choice(["add", "replace", "delete"])
+                try:
+                    if op == "add" or not parent_node["props"]:
+                        name = rng.choice([n for n in gen_dsl.PY_NAMES if n not in parent_node["props"]] or ["zzz"])
+                        pspec = {"el": gen0.spec(0), "required": rng.random() < 0.5, "source": None}
+                        parent_node["props"][name] = pspec
+                        parent_cls.properties[name] = sut.Property(gen_dsl.build(pspec["el"]), required=pspec["required"])
+                    elif op == "replace":
+                        name = rng.choice(sorted(parent_node["props"]))
+                        pspec = {"el": gen0.spec(0), "required": rng.random() < 0.5,
+                                 "source": parent_node["props"][name].get("source")}
+                        parent_node["props"][name] = pspec
+                        parent_cls.properties[name] = sut.Property(
+                            gen_dsl.build(pspec["el"]), required=pspec["required"], source=pspec["source"])
+                    else:
+                        # deleting an OWN property that overrides an inherited one removes the name from
+                        # the live class altogether, whereas in the mirrored spec the inherited declaration
+                        # would shine through again: only names no ancestor declares are deleted
+                        inherited = gen_dsl.effective_class(chain[level - 2], index)[1] if level >= 2 else {}
+                        candidates = [n for n in sorted(parent_node["props"]) if n not in inherited]
+                        if not candidates:
+                            raise LookupError("nothing deletable")
+                        name = rng.choice(candidates)
+                        del parent_node["props"][name]
+                        del parent_cls.properties[name]
+                    ctx.count("parent_reconfigured_before_subclassing")
+                    # the observation of that parent starts from its new configuration
+                    schema = gen_dsl.to_schema(parent_node, index)
+                    values = gv.batch_for_schema(rng, schema, schema, count=6)
+                    parent_obs[level - 1] = {"values": values,
+                                             "obs": parent_observation(sut, monitors, parent_cls, values)}
+                except Exception as exc:  # pylint: disable=broad-except
+                    ctx.count("parent_reconfig_refused." + type(exc).__name__)
             cls = gen_dsl.build(node, memo)
             classes.append(cls)
             # isolation of all ancestors when a child is *defined*
